@@ -15,9 +15,9 @@ fn mnemonic(code: u16) -> &'static str {
 }
 
 /// (record, compression choices, trailing record?)
-type ParseIn = (ARecord, Vec<u8>, bool);
+pub type ParseIn = (ARecord, Vec<u8>, bool);
 
-fn parse_strategy(_t: Tier) -> BoxedStrategy<ParseIn> {
+pub fn parse_strategy(_t: Tier) -> BoxedStrategy<ParseIn> {
     (
         select(gen::record_codes()).prop_flat_map(|c| gen::arecord_with(gen::typed(c))),
         vec(any::<u8>(), 0..6),
@@ -36,7 +36,7 @@ fn trailing() -> ARecord {
     }
 }
 
-fn check_parse(input: &ParseIn, case: &mut Case) -> Result<(), Fail> {
+pub fn check_parse(input: &ParseIn, case: &mut Case) -> Result<(), Fail> {
     let (rec, choices, trail) = input;
     let code = rec.rdata.code();
     case.nontrivial = true;
@@ -359,6 +359,15 @@ fn check_opt(input: &OptIn, case: &mut Case) -> Result<(), Fail> {
     // build direction
     let built = lib("build", || build(&p))?.map_err(|e| Fail::new("harness:build", e))?;
     let out = lib("build_bytes_vec", || built.build_bytes_vec())?.map_err(|e| Fail::new("c10:build-failed", format!("{:?}", e)))?;
-    ensure!(out == refwire, "c10:build-bytes:OPT", "message with OPT {} expected {}", hex(&out), hex(&refwire));
+    // compare the OPT record itself (owner, TYPE, CLASS, TTL, RDLENGTH, RDATA); its position among the
+    // additional records is not part of the statement
+    let find = |m: &[u8]| -> Result<Vec<u8>, Fail> {
+        let w = walk(m).map_err(|e| Fail::new("c10:build-framing:OPT", format!("{:?}: {}", e, hex(m))))?;
+        let r = w.records.iter().find(|r| r.rtype == 41).ok_or_else(|| Fail::new("c10:build-bytes:OPT", format!("no OPT record in {}", hex(m))))?;
+        Ok(m[r.off..r.end].to_vec())
+    };
+    let (got, want) = (find(&out)?, find(&refwire)?);
+    ensure!(got == want, "c10:build-bytes:OPT", "OPT record {} expected {}", hex(&got), hex(&want));
+    ensure!(out.len() == refwire.len() && out[..12] == refwire[..12], "c10:build-message:OPT", "message {} expected {}", hex(&out), hex(&refwire));
     Ok(())
 }
